@@ -28,7 +28,7 @@ verdict_name(int v)
 static void
 judge(const unsigned char *raw, size_t n, int serial, int listed, const char *mut, const char *origin)
 {
-    static unsigned char wire[400];
+    static unsigned char wire[900];
     if (++ncase_since_reset >= 12) {
         vh_arena_reset();
         H.nblk = 0;
@@ -94,6 +94,20 @@ judge(const unsigned char *raw, size_t n, int serial, int listed, const char *mu
                     H.call[0].write ? "write" : "read", H.call[0].addr, H.call[0].n);
         if (acked)
             vh_fail("corrupted-frame-acknowledged", key, "%s: reply %s", ctx, vh_hex(H.out, H.out_n > 40 ? 40 : H.out_n));
+    }
+    /* a frame that does not fit the frame block was never parsed: it is reported as too large, answered with a
+     * receive-overflow response, and nothing of what the block may still hold from an earlier frame is acted on */
+    if (n > H.blocksize - sizeof(RPFrame)) {
+        VH_COUNT("verdict: too large for the frame block");
+        if (H.ncalls != 0)
+            vh_fail("corrupted-frame-executed", key, "%s: too large for the block, yet %d backend calls (first: %s addr=%08x n=%zu)", ctx,
+                    H.ncalls, H.call[0].write ? "write" : "read", H.call[0].addr, H.call[0].n);
+        if (acked)
+            vh_fail("corrupted-frame-acknowledged", key, "%s: too large for the block, yet acknowledged: %s", ctx,
+                    vh_hex(H.out, H.out_n > 40 ? 40 : H.out_n));
+        if (mf.error.id != ENOMEM)
+            vh_fail("classification", key, "%s: error.id=%d for a frame larger than the block (expected ENOMEM)", ctx, mf.error.id);
+        return;
     }
     /* (ii) the receiver's classification */
     if (mf.error.id != v) {
@@ -362,6 +376,24 @@ mutate_frame(const struct corpus *c, vh_rng *rg, unsigned part, unsigned nparts,
         VH_SUB(1, 5);
         VH_SUB(2, e);
         judge(m, c->n + e, 1, 1, "extended", c->name);
+    }
+    /* extended beyond what the frame block can take: behind a request that was just served, on allocators that hand
+     * the same block out again, the block still holds that request */
+    {
+        static unsigned char big[400];
+        const size_t cap = H.blocksize - sizeof(RPFrame);
+        for (size_t e = 1; e <= 3 && cap + 20 < sizeof big; e++, k++) {
+            if (k % nparts != part)
+                continue;
+            /* serve the undamaged frame first, then its oversized twin */
+            VH_SUB(1, 6);
+            VH_SUB(2, e);
+            judge(c->raw, c->n, 1, 0, "undamaged", c->name);
+            memcpy(big, c->raw, c->n);
+            for (size_t i = c->n; i < cap + e * 7; i++)
+                big[i] = (unsigned char)vh_rand(rg);
+            judge(big, cap + e * 7, 1, 1, "extended-beyond-block", c->name);
+        }
     }
     VH_COUNT("mutation class: extension");
 }
@@ -798,6 +830,7 @@ harness_run(void)
                                  "wire damage making regp_recv fail before the end of the input (illegal escape)",
                                  "wire damage leaving no intact request", "wire damage leaving one intact request",
                                  "wire damage leaving two intact requests", "frame judged with the reply channel down",
+                                 "verdict: too large for the frame block",
                                  "corpus frame with all-zero payload (payload checksum 0000)",
                                  "corpus frame with payload ending in its own checksum (payload checksum 0000)",
                                  "corpus frame with header checksum 0000" };
